@@ -1,4 +1,5 @@
 import ZmqVerif.Lemmas.WorldMaps
+import ZmqVerif.Lemmas.WorldSendStart
 import ZmqVerif.Lemmas.WorldReqRecv
 /-!
 # C08 — REQ/REP lock-step: one outstanding request, the reply goes to its requester
@@ -163,5 +164,24 @@ theorem C08_world_req_recv (w : World) (sid : Nat) (s : Socket) (hs : getSock w 
            (∀ m, i = .message m → reqUnwrap m = none))
      | _ => False) :=
   reqRecvPoll_spec w sid s hs k hc rd hk w' o h
+
+/-- **`RepSocket::send` against the wires**: without a request there is nothing to answer (message handed back, no wire
+touched); otherwise the send is in progress to EXACTLY the connection the request came from (`s.current`), with the
+encoding of `stored envelope ++ reply` — and to no other connection. -/
+theorem C08_world_rep_send (w : World) (sid : Nat) (m : Msg) (s : Socket) (hs : getSock w sid = some s)
+    (w' : World) (f' : FutSt) (o : POut) (h : repSendStart w sid m = (w', f', o)) :
+    match (generalizing := false) f', o with
+    | .sendTo _ k st _, .pending =>
+        s.current = some k ∧ ∃ wr, ilookup s.peers k = some wr ∧
+          SendInv w' sid k wr.pipe (outOf w.pipes wr) (encodeMsg (repReply (s.envelope.getD []) m)) st ∧
+          ∀ j, j ≠ wr.pipe → wOf w'.pipes j = wOf w.pipes j
+    | _, .ready .okUnit =>
+        ∃ k wr, s.current = some k ∧ ilookup s.peers k = some wr ∧
+          (wOf w'.pipes wr.pipe).wire = outOf w.pipes wr ++ encodeMsg (repReply (s.envelope.getD []) m) ∧
+          ∀ j, j ≠ wr.pipe → wOf w'.pipes j = wOf w.pipes j
+    | _, .ready (.errReturn m') => m' = m ∧ ∀ j, wOf w'.pipes j = wOf w.pipes j
+    | _, .ready (.err _) => True
+    | _, _ => False :=
+  repSendStart_spec w sid m s hs w' f' o h
 
 end Zmq.C08
